@@ -198,6 +198,18 @@ pub fn run(ctx: &Ctx) -> Report {
         })
         .reduce(Acc::default, |a, b| a.merge(b));
     acc2 = acc2.merge(acc_huge);
+    // every declared length (every multiple of 4 up to 65 532) under two attribute layouts, cut at
+    // every point of the first 1100 bytes and at the points a misread length field leads to
+    let acc_len = (0..=16383u32)
+        .into_par_iter()
+        .fold(Acc::default, |mut acc, q| {
+            for layout in 0..2i64 {
+                judge_guarded(judge, &Case::new("lengths", vec![]).args(&[q as i64 * 4, layout]), &mut acc);
+            }
+            acc
+        })
+        .reduce(Acc::default, |a, b| a.merge(b));
+    acc2 = acc2.merge(acc_len);
     // header decoder over the header space
     let lens: [u16; 7] = [0, 1, 3, 4, 8, 0xFFFC, 0xFFFF];
     let acc3 = (0..=0xFFFFu32)
@@ -251,7 +263,7 @@ pub fn run(ctx: &Ctx) -> Report {
     Report {
         acc,
         exhaustive: true,
-        rule: "every well-formed message of the skeleton space (x4 header variants, one per class), all 16 384 (class, method) pairs x five small bodies (unaligned / empty / aligned last attribute, FINGERPRINT), messages of 1..=70 / 100 / 129 / 257 / 1025 attributes, 144 messages carrying a relayed STUN message or a value that reads as a sealing attribute at four alignments, and 10 builder-made messages with attribute lengths up to 763 x every cut point 0..len; 5 messages of 4 KiB .. 65 552 bytes x cut points {0..=300, last 300, powers of two +-1, every 251st}; header decoder on all 65536 type fields x 7 length fields x cookie ok/off, all 65536 length fields x 3 types, every cookie bit, walking-one / walking-zero / byte-lane transaction ids; distinct_nontrivial counts the well-formed messages".into(),
+        rule: "every declared length (every multiple of 4 in 0..=65 532) under two attribute layouts (value-less attributes: an attribute ends at every multiple of 4; an address attribute + one DATA attribute), cut at every point below 1100, at 20 + the byte-swapped / halved / single-bit-flipped / high-byte / low-byte length and in the last 8 bytes; every well-formed message of the skeleton space (x4 header variants, one per class), all 16 384 (class, method) pairs x five small bodies (unaligned / empty / aligned last attribute, FINGERPRINT), messages of 1..=70 / 100 / 129 / 257 / 1025 attributes, 144 messages carrying a relayed STUN message or a value that reads as a sealing attribute at four alignments, and 10 builder-made messages with attribute lengths up to 763 x every cut point 0..len; 5 messages of 4 KiB .. 65 552 bytes x cut points {0..=300, last 300, powers of two +-1, every 251st}; header decoder on all 65536 type fields x 7 length fields x cookie ok/off, all 65536 length fields x 3 types, every cookie bit, walking-one / walking-zero / byte-lane transaction ids; distinct_nontrivial counts the well-formed messages".into(),
         bounds: json!({"skeletons": sk.len(), "cut_points": "all", "header_space": 65536 * 14}),
         assumptions: vec![],
         ..Default::default()
@@ -290,6 +302,48 @@ pub fn judge(case: &Case, acc: &mut Acc) {
             if k >= 20 {
                 header_check(case, &m[..20], acc);
             }
+        }
+        "lengths" => {
+            // a message whose declared length is args[0]; layout 0: attributes without a value (an
+            // attribute ends at every multiple of 4), layout 1: a 12-byte address attribute and one
+            // DATA attribute with the rest (a relayed datagram)
+            let (l, layout) = (case.args[0] as usize, case.args[1]);
+            let mut m = wire::encode_header(1, 0x006, 0x5152_5354_5556_5758_595A_5B5C, 0);
+            if layout == 0 || l < 16 {
+                for i in 0..l / 4 {
+                    wire::append_raw(&mut m, if i % 2 == 0 { 0x0025 } else { 0xC029 }, &[]);
+                }
+            } else {
+                wire::append_raw(&mut m, 0x0012, &[0, 1, 0x21, 0x12, 0x21 ^ 10, 0x12, 0xA4, 0x43]);
+                let v: Vec<u8> = (0..l - 16).map(|i| (i * 7) as u8).collect();
+                wire::append_raw(&mut m, 0x0013, &v);
+            }
+            let n = m.len();
+            if n != l + 20 || wire::decode(&m).is_err() {
+                panic!("harness: length-sweep message of {l} bytes is not well-formed");
+            }
+            acc.nontrivial += 1;
+            acc.outcome("declared length: message cut at the first 1100 points and where a misread length field leads");
+            let l16 = l as u16;
+            let mut cuts: Vec<usize> = (0..n.min(1100)).collect();
+            cuts.extend([20 + l16.swap_bytes() as usize, 20 + (l >> 8), 20 + (l & 0xFF), 20 + l / 2, 20 + l / 4, l, l16.swap_bytes() as usize]);
+            cuts.extend((0..16).map(|b| 20 + (l ^ (1 << b))));
+            cuts.extend((1..=8).map(|d| n.saturating_sub(d)));
+            cuts.sort();
+            cuts.dedup();
+            for k in cuts {
+                if k >= n {
+                    continue;
+                }
+                acc.evaluations += 1;
+                let want_expected = if k < 20 { 20 } else { n };
+                let got = Message::from_bytes(&m[..k]).map(|_| ()).map_err(PErr::from);
+                if got != Err(PErr::Truncated(want_expected, k)) {
+                    viol!(acc, P, if got.is_ok() { "prefix-accepted" } else { "not-truncated" }, case, format!("the first {k} bytes of a well-formed message of {n} bytes (declared length {l:#06x}) are not reported as truncated"), format!("Err(Truncated {{ expected: {want_expected}, actual: {k} }})"), format!("{got:?}"));
+                    return;
+                }
+            }
+            header_check(case, &m[..20], acc);
         }
         "header" => header_check(case, &case.data.clone(), acc),
         other => panic!("harness: unknown C17 op {other}"),
